@@ -45,6 +45,8 @@ class Collector:
         self.sample_every = 1
         self.python_optimize = False
         self.strict_warnings = False
+        self.low_limit = 0          # >0 while faults.low_stack() runs a call with little stack left
+        self.high_limit = 0
         self._sample_tick = 0
 
     # -- counters ---------------------------------------------------------
